@@ -224,6 +224,43 @@ func runC18(r *vk.Run) {
 		}
 	})
 
+	// end to end: the plugin binary run repeatedly over the same daemon state must print the same bytes
+	r.Phase("e2e", r.N(3, 12), func(c *vk.Case) {
+		inv := c14Inventory(c.Rng, 5, 4)
+		for i := range inv {
+			inv[i].Labels = map[string]string{"a.b": "dot", "a-b": "dash", "a/b": fmt.Sprint(i)}
+		}
+		d, err := startFakeDaemon(inv, false)
+		if err != nil {
+			c.R.Inconclusive("fake daemon: " + err.Error())
+			return
+		}
+		defer d.Close()
+		for _, q := range []string{`{container=~"c.*"}`, `{a_b=~".+"} | logfmt | v != "2"`, `{container=~"c.*"} | drop msg`} {
+			first := ""
+			for rep := 0; rep < c.R.N(5, 30); rep++ {
+				pr, err := runPlugin(d, 60*time.Second, q, "--start", fmt.Sprint(c14T0/1e9-10), "--end", fmt.Sprint(c14T0/1e9+100), "--color=false")
+				c.Eval(1)
+				if err != nil {
+					c.R.Inconclusive("cannot run plugin binary: " + err.Error())
+					return
+				}
+				if pr.TimedOut || pr.Exit != 0 {
+					c.Fail("", fmt.Sprintf("plugin failed on %s: exit=%d %s", q, pr.Exit, trunc(string(pr.Stderr), 300)), map[string]any{"query": q, "stderr": string(pr.Stderr)})
+					return
+				}
+				if first == "" {
+					first = string(pr.Stdout) + "\x00"
+				} else if first != string(pr.Stdout)+"\x00" {
+					c.Fail("", fmt.Sprintf("plugin printed different output for %s in run %d", q, rep), map[string]any{"query": q, "inventory": inv, "this_output": string(pr.Stdout), "first_output": first})
+					return
+				}
+				c.Count("e2e_runs_compared", 1)
+			}
+		}
+	})
+	r.Require("e2e_runs_compared", 30)
+
 	blocks, distinct := collectRaceReports("C18")
 	r.SetExtra("race_report_blocks", blocks)
 	r.SetExtra("race_reports_distinct", len(distinct))
